@@ -273,7 +273,8 @@ def _check_path(contract: Contract, sc: Scenario, ctx: Ctx, cases: List[Case],
         # outcome kind
         o = rep.ob(f"{cid}/outcome", "outcome", public, props)
         if case.raises is not None:
-            ok = out.kind == "raise" and exc_isa(out.exc.cls, case.raises)
+            ok = out.kind == "raise" and any(
+                exc_isa(out.exc.cls, alt) for alt in case.raises.split("|"))
             want = f"raises {case.raises}"
         else:
             ok = out.kind == "return"
